@@ -9,6 +9,7 @@ encode and decode trusted; no theorem here speaks about file bytes.
 import OdcGeo.Model.C15
 import OdcGeo.Lemmas.C05
 import Mathlib.Tactic.Linarith
+import Mathlib.Tactic.Ring
 
 namespace OdcGeo.C15
 open OdcGeo.C05 (adjustBlocksize alignUp alignUp_dvd alignUp_ge alignUp_lt YX)
@@ -163,5 +164,114 @@ theorem ovr_size_ceil (w h l : Nat) (hl : 0 < l) :
     rw [Nat.mul_comm] at h1
     constructor <;> omega
   exact ⟨(key w).1, (key w).2, (key h).1, (key h).2⟩
+
+/-! ## the array as a whole: layout then levels -/
+
+/-- `normalised_pixel`: element `[k, y, x]` of the band-first array handed to GDAL is `source[y, x, k]` for band-last
+input (the permutation is `[2, 0, 1]`, band order kept) and `source[k, y, x]` itself otherwise -/
+theorem normalised_pixel {α : Type} (l : Layout) (pix : Nat → Nat → Nat → α) (k y x : Nat) :
+    normalise l pix k y x = if l.transposed then pix y x k else pix k y x := by
+  unfold normalise srcIndex
+  cases l.transposed <;> rfl
+
+/-- `levels_independent_of_layout`: the overview levels depend on the SPATIAL shape only.  The same `h × w` image over
+the same GeoBox, given as 2-D, band-first (`c` bands) or band-last, gets the same levels — also by default (none under
+512 px, `[2,4,8,16,32]` otherwise): the rule never sees the band axis.  (`hne`: the layouts are not ambiguous.) -/
+theorem levels_independent_of_layout (req : Option (List Nat)) (h w c : Nat)
+    (hne : (⟨h, w⟩ : YX) ≠ ⟨c, h⟩) :
+    levelsForArray req [h, w] ⟨h, w⟩ = .ok (levelsFor req w h) ∧
+    levelsForArray req [c, h, w] ⟨h, w⟩ = .ok (levelsFor req w h) ∧
+    levelsForArray req [h, w, c] ⟨h, w⟩ = .ok (levelsFor req w h) := by
+  refine ⟨by simp [levelsForArray, normLayout], ?_, by simp [levelsForArray, normLayout]⟩
+  simp [levelsForArray, normLayout, hne]
+
+/-- the C15-11 class as a concrete non-vacuity witness: a 600 × 513 RGB image, band-last, gets the five default levels
+(the smaller SPATIAL side is 513, not the band count 3) -/
+example : levelsForArray none [600, 513, 3] ⟨600, 513⟩ = .ok [2, 4, 8, 16, 32] ∧
+    levelsForArray none [3, 600, 513] ⟨600, 513⟩ = .ok [2, 4, 8, 16, 32] ∧
+    levelsForArray none [511, 700, 4] ⟨511, 700⟩ = .ok [] := by decide
+
+/-! ## nodata -/
+
+/-- `nodata_resolution`: on every entry point an explicit keyword wins, otherwise the array's `attrs['nodata']`,
+otherwise none -/
+theorem nodata_resolution (e : Entry) (kw attrs : Option Num) :
+    resolveNodata e kw attrs = (match kw with | some v => some v | none => attrs) ∧
+    (kw = none → attrs = none → resolveNodata e kw attrs = none) ∧
+    (∀ v, kw = some v → resolveNodata e kw attrs = some v) := by
+  refine ⟨rfl, ?_, ?_⟩
+  · rintro rfl rfl; rfl
+  · rintro v rfl; rfl
+
+/-- the entry point does not matter -/
+theorem nodata_entry_irrelevant (e e' : Entry) (kw attrs : Option Num) :
+    resolveNodata e kw attrs = resolveNodata e' kw attrs := rfl
+
+/-- `nodata_spelling_irrelevant`: the value that reaches GDAL depends on the numbers, not on how they are spelled
+(python int / float, numpy scalar of any dtype, 0-d array; any spelling of NaN) nor on which route each took -/
+theorem nodata_spelling_irrelevant (e : Entry) (kw kw' attrs attrs' : Option Num)
+    (hk : kw.map Num.value = kw'.map Num.value) (ha : attrs.map Num.value = attrs'.map Num.value) :
+    (resolveNodata e kw attrs).map Num.value = (resolveNodata e kw' attrs').map Num.value := by
+  cases kw <;> cases kw' <;> simp_all [resolveNodata]
+
+example : (resolveNodata .writeCog none (some (.npScalar "int16" (-9999)))).map Num.value =
+    (resolveNodata .toCog none (some (.pyInt (-9999)))).map Num.value := by decide
+
+/-! ## `_norm_compression_opts` aliasing -/
+
+/-- a `bool` / `str` argument yields a new dict; a dict argument comes back as the caller's own object — which is
+harmless on HEAD because neither caller writes into the result -/
+theorem norm_compression_aliasing (c : CompArg) :
+    (normCompressionFresh c = false ↔ ∃ kv, c = .opts kv) ∧ ∀ u : NormUse, u.writesInto = false := by
+  refine ⟨?_, fun u => by cases u <;> rfl⟩
+  cases c <;> simp [normCompressionFresh]
+
+/-! ## GeoTIFF transform tags (shared with C05; GDAL reference semantics, `Model/CogShared.lean`) -/
+
+open OdcGeo.Cog in
+/-- `tags_encode_affine`: for EVERY affine (north-up, south-up, mirrored, rotated, sheared) the tags GDAL writes decode
+to exactly that affine: ModelPixelScale + ModelTiepoint when north-up, the ModelTransformation matrix otherwise -/
+theorem tags_encode_affine (A : Aff) : decodeTransform (encodeTransform A) = some A := by
+  obtain ⟨a, b, c, d, e, f⟩ := A
+  unfold encodeTransform
+  split
+  · rename_i h
+    obtain ⟨hb, hd, _⟩ := h
+    simp only at hb hd
+    subst hb; subst hd
+    simp [decodeTransform]
+  · simp [decodeTransform]
+
+open OdcGeo.Cog in
+/-- which encoding is used -/
+theorem tags_kind (A : Aff) :
+    (∃ s t, encodeTransform A = .scaleTie s t) ↔ (A.b = 0 ∧ A.d = 0 ∧ A.e < 0) := by
+  unfold encodeTransform
+  split <;> simp_all
+
+open OdcGeo.Cog in
+/-- the tags do not depend on the image shape (`geotiff_metadata` takes them from `geobox[:2, :2]`) -/
+theorem tags_shape_independent (A : Aff) (s s' : Nat × Nat) :
+    encodeTransform (cropKeepsAffine A s) = encodeTransform (cropKeepsAffine A s') := rfl
+
+/-! ## C15 ∘ C05: the two writers share `_shared.py` -/
+
+/-- `same_tile_rule`: for an image at least as large as the requested block both writers use the same tile size — the GDAL
+writer's `blockxsize / blockysize` are the dask writer's `norm_blocksize(block)`; they differ only for images smaller than
+the block, which the GDAL writer shrinks to the image (`adjust_blocksize(block, dim)`), the dask writer does not -/
+theorem same_tile_rule (b w h : Nat) (fl : Bool) (hw : ¬(0 < w ∧ w < b)) (hh : ¬(0 < h ∧ h < b)) :
+    (cogOpts (some b) w h fl).blockxsize = (OdcGeo.C05.normBlocksize (.one b)).x ∧
+    (cogOpts (some b) w h fl).blockysize = (OdcGeo.C05.normBlocksize (.one b)).y := by
+  simp only [cogOpts, Option.getD, OdcGeo.C05.normBlocksize, adjustBlocksize]
+  rw [if_neg hw, if_neg hh]
+  simp
+
+/-- and the geo-registration tags of both are the encoding of the same affine (C05 copies the tags GDAL writes for the
+GeoBox, C15 lets GDAL write them): they decode to the GeoBox's transform -/
+theorem same_geo_tags (A : Aff) (shapeC05 shapeC15 : Nat × Nat) :
+    OdcGeo.Cog.decodeTransform (OdcGeo.Cog.encodeTransform (OdcGeo.Cog.cropKeepsAffine A shapeC05)) = some A ∧
+    OdcGeo.Cog.encodeTransform (OdcGeo.Cog.cropKeepsAffine A shapeC05) =
+      OdcGeo.Cog.encodeTransform (OdcGeo.Cog.cropKeepsAffine A shapeC15) :=
+  ⟨tags_encode_affine A, rfl⟩
 
 end OdcGeo.C15
